@@ -1,7 +1,7 @@
 """C06 - every metafile written is canonical, structurally valid bencoding."""
 import ast
 
-from tfsa.flow import Flow, walk_terms, walk_values, show
+from tfsa.flow import Flow, walk_terms, walk_values, show, travels_in_container
 from tfsa.loader import own_nodes, AnalysisError
 from tfsa.pointsto import inplace_rekey, PointsTo, is_sorted_items_copy, sorted_copy_info, STAR, ELEM
 from tfsa.reach import ReachDefs
@@ -953,6 +953,11 @@ def hash_kinds(ctx, pt):
             n += 1
             if hs == {exp}:
                 ctx.holds("C06.6", ins.fn, "'%s' receives only %s digests" % (name, exp), norm(ins.node) + " :: " + name)
+            elif hs - {exp} and travels_in_container(t, lambda y: y[0] == "ext" and y[1].startswith("hashlib.")):
+                # digests of both kinds travel side by side through one container (a record, a tuple that is unpacked later):
+                # which of them arrives here is not separated by the origin terms
+                ctx.undecided("C06.6", ins.fn, "'%s': %s and %s digests travel through a container together and could not be told apart" % (name, exp, ", ".join(sorted(hs - {exp}))),
+                              norm(ins.node) + " :: " + name)
             elif hs - {exp}:
                 ctx.violated("C06.6", ins.fn, "'%s' can receive %s values (must be %s, %d-byte hashes)" % (name, sorted(hs - {exp}), exp, want[name][1]),
                              norm(ins.node) + " :: " + name)
@@ -972,10 +977,12 @@ def hash_kinds(ctx, pt):
                 for k, v in zip(d.keys, d.values):
                     if const_str(k) == "pieces root":
                         t = flow.term(v, f)
-                        hs = {x[1] for x in walk_terms(t) if x[0] == "ext" and x[1].startswith("hashlib.")}
+                        hs = {x[1] for x in walk_values(t) if x[0] == "ext" and x[1].startswith("hashlib.")}
                         n += 1
                         if hs == {"hashlib.sha256"}:
                             ctx.holds("C06.6", f, "'pieces root' receives only hashlib.sha256 digests", v)
+                        elif hs - {"hashlib.sha256"} and travels_in_container(t, lambda y: y[0] == "ext" and y[1].startswith("hashlib.")):
+                            ctx.undecided("C06.6", f, "'pieces root': digests of several kinds travel through a container together and could not be told apart", v)
                         elif hs - {"hashlib.sha256"}:
                             ctx.violated("C06.6", f, "'pieces root' can receive %s values" % sorted(hs - {"hashlib.sha256"}), v)
                         else:
